@@ -176,18 +176,25 @@ Theorem compiled_graph_roundtrip : forall f32 name pnames g,
                /\ write_def d = Some bs /\ parse_def bs = Ok d.
 Proof. exact to_sdef_roundtrip_l. Qed.
 
-(* PARTIAL: for EVERY program the compiler model compiles -- under the explicit hypothesis
-   compile_wf (the compiler's output passes graph_ok), which is C01/C20's obligation
+(* graph_ok = structural part (the compiler's obligation, true of every output whatever the program)
+   + size part (fails exactly when the graph does not fit the format's integer fields) *)
+Theorem graph_ok_from_core_and_size : forall g, graph_core_ok g = true -> graph_small g = true -> graph_ok g = true.
+Proof. exact graph_core_small_ok. Qed.
+
+(* PARTIAL: for EVERY program the compiler model compiles and whose graph fits the integer fields of
+   the format (graph_small, decidable on g) -- under the explicit hypothesis
+   compile_wf (the compiler's output passes graph_core_ok), which is C01/C20's obligation
    (DESIGN: compile_wf / topo_is_permutation_respecting_edges) and is not proved there yet.
    Full statement = this one without the hypothesis.  Meanwhile bridge_check evaluates graph_ok,
    wf_def and byte equality with the REAL library on every correspondence program. *)
 Theorem compiled_programs_roundtrip_partial : forall (cmp : Graph.prog -> Graph.res Graph.graph),
   (* cmp = Graph.compile T <flags>; stated for any function of this type so that it does not depend
      on how many flags the compiler model takes *)
-  (forall p g, cmp p = Graph.Ok g -> graph_ok g = true) ->
+  (forall p g, cmp p = Graph.Ok g -> graph_core_ok g = true) ->
   forall f32 name pnames p g,
   (forall q, w32_ok (f32 q) = true) ->
   cmp p = Graph.Ok g ->
+  graph_small g = true ->
   names_ok name pnames (zlen (Graph.gr_controls g)) = true ->
   exists d bs, to_sdef f32 name pnames g = Some d /\ wf_def d = true
                /\ write_def d = Some bs /\ parse_def bs = Ok d.
@@ -255,7 +262,7 @@ Definition ex_prog : Graph.prog :=
 Example ex_compiled_bridge :
   match ex_cmp ex_prog with
   | Graph.Ok g =>
-      graph_ok g = true
+      graph_core_ok g = true /\ graph_small g = true /\ graph_ok g = true
       /\ match to_sdef (fun _ => 0) (bs_of_string "c"%string) [(bs_of_string "k0"%string, 0); (bs_of_string "k1"%string, 1)] g with
          | Some d => wf_def d = true /\ List.length (d_units d) = 3%nat
                      /\ match write_def d with Some bs => parse_def bs = Ok d | None => False end
